@@ -27,7 +27,7 @@ from easynetwork.servers.async_tcp import AsyncTCPNetworkServer
 from easynetwork.servers.async_udp import AsyncUDPNetworkServer
 from easynetwork.servers.handlers import AsyncDatagramRequestHandler, AsyncStreamRequestHandler
 
-from vlib import vloop, yieldinject
+from vlib import netutil, vloop, yieldinject
 
 PROPERTY = "C18"
 LEVEL = "exploration"
@@ -143,9 +143,9 @@ def run_async_history(h: dict) -> dict:
     async def main(loop):
         backend = SlowBackend(h["listen_delay"])
         if h["udp"]:
-            server: Any = AsyncUDPNetworkServer("127.0.0.1", 0, DatagramProtocol(StringLineSerializer()), EchoDgram(h["init_delay"]), backend, logger=_quiet())
+            server: Any = AsyncUDPNetworkServer(netutil.rand_loopback(), 0, DatagramProtocol(StringLineSerializer()), EchoDgram(h["init_delay"]), backend, logger=_quiet())
         else:
-            server = AsyncTCPNetworkServer("127.0.0.1", 0, StreamProtocol(StringLineSerializer()), EchoStream(h["init_delay"], h["disc_delay"]), backend, logger=_quiet())
+            server = AsyncTCPNetworkServer(netutil.rand_loopback(), 0, StreamProtocol(StringLineSerializer()), EchoStream(h["init_delay"], h["disc_delay"]), backend, logger=_quiet())
         serve_tasks: list = []
         captured_socks: list = []
 
@@ -388,9 +388,9 @@ def run_thread_history(h: dict, seed: int) -> dict:
             return kw["i"]
 
     if h["udp"]:
-        server: Any = StandaloneUDPNetworkServer("127.0.0.1", 0, DatagramProtocol(StringLineSerializer()), EchoDgram(0), logger=_quiet())
+        server: Any = StandaloneUDPNetworkServer(netutil.rand_loopback(), 0, DatagramProtocol(StringLineSerializer()), EchoDgram(0), logger=_quiet())
     else:
-        server = StandaloneTCPNetworkServer("127.0.0.1", 0, StreamProtocol(StringLineSerializer()), EchoStream(0, 0), logger=_quiet())
+        server = StandaloneTCPNetworkServer(netutil.rand_loopback(), 0, StreamProtocol(StringLineSerializer()), EchoStream(0, 0), logger=_quiet())
     serve_threads: list = []
 
     def op_serve(cid: int):
@@ -595,7 +595,7 @@ def _server_thread_cycle(ctx, rng) -> None:
     from easynetwork.servers.standalone_tcp import StandaloneTCPNetworkServer
     from easynetwork.servers.threads_helper import NetworkServerThread
 
-    server = StandaloneTCPNetworkServer("127.0.0.1", 0, StreamProtocol(StringLineSerializer()), EchoStream(0, 0), logger=_quiet())
+    server = StandaloneTCPNetworkServer(netutil.rand_loopback(), 0, StreamProtocol(StringLineSerializer()), EchoStream(0, 0), logger=_quiet())
     ctx.count("kind:server-thread")
     t = NetworkServerThread(server, daemon=True)
     done = threading.Event()
